@@ -1,10 +1,164 @@
 import NutilsVerif.Model.C07
 import NutilsVerif.Generated.C07
+import NutilsVerif.Proofs.C07Basic
+import NutilsVerif.Proofs.C07Broadcast
+import NutilsVerif.Proofs.C07Getitem
+import NutilsVerif.Proofs.C07Reshape
+import NutilsVerif.Proofs.C07Transpose
 /-!
-# C07 — property theorems (statements about the executable model in `Model/C07.lean`)
+# C07 — property theorems
+
+Every theorem relates a **code model** (transcription of the index / shape logic of `nutils/function.py`, see
+`Model/C07.lean`) to the **specification** of NumPy / CPython written independently in the same file (`np…`, `py…`),
+for ALL inputs.  The harness validates the specification functions against real NumPy and the code models against real
+nutils on every run; the proofs themselves live in `Proofs/C07*.lean`.
 -/
 namespace NutilsVerif.C07
 
-theorem placeholder : normdim 3 (-1) = some 2 := by decide
+/-! ## axis normalisation (`numeric.normdim`, used by every `axis=` argument, `_Transpose._end`, `_Concatenate`) -/
+
+/-- `normdim ndim n` is defined exactly for `-ndim ≤ n < ndim` (otherwise IndexError, as NumPy's AxisError), and then it
+is the axis `n mod ndim` NumPy means. -/
+theorem normdim_spec (ndim : Nat) (n : Int) :
+    (normdim ndim n = none ↔ (n < -(ndim : Int) ∨ (ndim : Int) ≤ n)) ∧
+    ∀ k, normdim ndim n = some k → (k < ndim ∧ (k : Int) = n % (ndim : Int)) :=
+  ⟨normdim_none_iff ndim n, normdim_some ndim n⟩
+
+/-- the constant-index branch of `numpy.take` (`indices[indices<0] += length`, bounds check): an in-range index is
+normalised like NumPy does, anything else is rejected when the expression is built. -/
+theorem take_index_normal (i : Int) (n : Nat) :
+    (∀ k, normIndex i n = some k → k < n ∧ ((0 ≤ i ∧ (k : Int) = i) ∨ (i < 0 ∧ (k : Int) = i + n))) ∧
+    (normIndex i n = none ↔ (i < -(n : Int) ∨ (n : Int) ≤ i)) := by
+  unfold normIndex
+  by_cases h : i < 0
+  · simp [h]; constructor <;> (try intro k) <;> omega
+  · simp [h]; constructor <;> (try intro k) <;> omega
+
+/-! ## element kinds -/
+
+/-- `typecast_arrays` computes NumPy's kind promotion (the join in `bool < int < float < complex`), which is
+commutative, associative and idempotent. -/
+theorem promote_lattice :
+    (∀ a b, promote a b = npPromote a b) ∧ (∀ a b, npPromote a b = npPromote b a) ∧
+    (∀ a b c, npPromote (npPromote a b) c = npPromote a (npPromote b c)) ∧ (∀ a, npPromote a a = a) :=
+  ⟨promote_eq_np, npPromote_comm, npPromote_assoc, npPromote_idem⟩
+
+/-- the common dtype chosen by `typecast_arrays(*arrays, min_dtype)` is the least kind that is at least `min_dtype`
+and at least every operand kind. -/
+theorem typecast_spec (m : DType) (ds : List DType) :
+    typecast m ds = ds.foldl npPromote m ∧ m.rank ≤ (typecast m ds).rank ∧ (∀ d ∈ ds, d.rank ≤ (typecast m ds).rank) ∧
+    (typecast m ds = m ∨ typecast m ds ∈ ds) := by
+  have h := typecast_eq_np m ds
+  have hr := foldl_npPromote_rank m ds
+  have hge := foldl_max_ge m.rank ds
+  refine ⟨h, by rw [h, hr]; exact hge.1, fun d hd => by rw [h, hr]; exact hge.2 d hd, ?_⟩
+  rcases foldl_max_mem m.rank ds with hm | ⟨d, hd, hm⟩
+  · left; rw [h]; exact rank_inj (by rw [hr, hm])
+  · right; rw [h]; have : ds.foldl npPromote m = d := rank_inj (by rw [hr, hm]); rw [this]; exact hd
+
+/-- (X) every entry of the table re-extracted from `HANDLED_FUNCTIONS` (`min_dtype`, `force_dtype` of each
+`_Wrapper.broadcasted_arrays` call) produces, for all supported operand kinds, the element kind NumPy produces. -/
+theorem ufunc_table_kind :
+    ∀ e ∈ ufuncTable, ∀ ds ∈ allKinds e.nin, supportedKinds e.name ds = true → npUfuncKind e.name ds = some (e.result ds) := by
+  decide +kernel
+
+/-! ## broadcasting -/
+
+/-- `function.broadcast_shapes` returns NumPy's broadcast shape (right-aligned, every axis pair equal or one of them 1,
+folded over all shapes) and rejects exactly when NumPy rejects. -/
+theorem broadcast_shapes_spec (shapes : List (List Nat)) (h : shapes ≠ []) :
+    broadcastShapes shapes = npBroadcast shapes :=
+  broadcastShapes_eq_npBroadcast shapes h
+
+/-- the broadcast of shapes is commutative, associative and idempotent, with `()` as unit -/
+theorem broadcast_laws :
+    (∀ a b, npBroadcast2 a b = npBroadcast2 b a) ∧
+    (∀ a b c, (npBroadcast2 a b).bind (fun x => npBroadcast2 x c) = (npBroadcast2 b c).bind (fun y => npBroadcast2 a y)) ∧
+    (∀ a, npBroadcast2 a a = some a) ∧ (∀ a, npBroadcast2 a [] = some a) :=
+  ⟨npBroadcast2_comm, npBroadcast2_assoc, npBroadcast2_idem, npBroadcast2_nil_right⟩
+
+/-- the result of a successful broadcast has the maximal rank and every axis is the pairwise rule applied to the
+right-aligned operand axes (missing axes count as 1) -/
+theorem broadcast2_pointwise (a b c : List Nat) :
+    npBroadcast2 a b = some c ↔
+      c.length = max a.length b.length ∧ ∀ j, bcAxis (a.reverse.getD j 1) (b.reverse.getD j 1) = some (c.reverse.getD j 1) := by
+  unfold npBroadcast2
+  constructor
+  · intro h
+    obtain ⟨r, hr, rfl⟩ := Option.map_eq_some_iff.mp h
+    have := (npBroadcastRev_iff _ _ _).mp hr
+    simpa using this
+  · rintro ⟨hl, hp⟩
+    have : npBroadcastRev a.reverse b.reverse = some c.reverse := (npBroadcastRev_iff _ _ _).mpr ⟨by simpa using hl, hp⟩
+    rw [this]; simp
+
+/-! ## slices -/
+
+/-- `_takeslice` (with the clipping fix): for all `(start, stop, step, n)` the index vector used equals
+`range(*slice(start, stop, step).indices(n))`; a zero step is rejected in both. -/
+theorem takeslice_spec (s : PySlice) (n : Nat) : (takeslice s n).map (·.indices n) = npSliceRange s n :=
+  takeslice_indices s n
+
+/-- every index a slice produces lies inside the axis (so the `Take` never reads out of bounds) -/
+theorem slice_indices_inrange (s : PySlice) (n : Nat) (r : List Int) (h : npSliceRange s n = some r) :
+    ∀ i ∈ r, 0 ≤ i ∧ i < n :=
+  npSliceRange_inrange s n r h
+
+/-- the pinned tree (no clipping in the unit-step branch) violates `takeslice_spec`: witness `a[0:10]` on length 3 -/
+theorem takeslice_pinned_counterexample :
+    (takeslicePinned ⟨some 0, some 10, none⟩ 3).map (·.indices 3) ≠ npSliceRange ⟨some 0, some 10, none⟩ 3 := by
+  decide
+
+/-! ## `Array.__getitem__` -/
+
+/-- for every item tuple of ints (any sign), slices (any start / stop / step, also `None`), an ellipsis and newaxes,
+the loop of `Array.__getitem__` (ellipsis expansion through the `nx` count, `axis += 1` bookkeeping, `expand_dims`,
+`_takeslice`, `take`) rejects exactly when NumPy's basic indexing does, and otherwise yields NumPy's result shape and
+NumPy's element map. -/
+theorem getitem_normal_form (shape : List Nat) (items : List Item) (hb : ∀ it ∈ items, it.isBasic = true) :
+    match getitem shape items, npGetitemBasic shape items with
+    | some v, some w => v.shape = w.shape ∧ ∀ idx, inBox w.shape idx = true → v.src idx = w.src idx
+    | none, none => True
+    | _, _ => False :=
+  getitem_normal_form' shape items hb
+
+/-! ## `numpy.reshape` -/
+
+/-- the ravel / unravel / roll plan (common-prefix detection, `-1` resolution, appended singletons, stripping of
+trailing singletons) denotes the row-major reshape for every pair of shapes of equal size and rejects all others
+(dimensions positive: zero-size arrays make the real code divide by zero, see notes). -/
+theorem reshape_plan_spec (shape : List Nat) (newshape : List (Option Nat))
+    (hpos : ∀ n ∈ shape, 0 < n) (hpos' : ∀ n ∈ newshape.filterMap id, 0 < n) :
+    match reshape shape newshape, npReshape shape newshape with
+    | .ok v, some w => v.shape = w.shape ∧ ∀ idx, inBox w.shape idx = true → v.src idx = w.src idx
+    | .error _, none => True
+    | _, _ => False :=
+  reshape_plan_spec' shape newshape hpos hpos'
+
+/-! ## lowering relative to the leading point axes -/
+
+/-- `_Transpose.lower` with `k` point axes: the lowered transposition keeps the `k` leading axes in place and acts on
+the remaining axes exactly as the unlowered transposition — for every `k`, every axes tuple and every point index. -/
+theorem transpose_lower_pointwise (k : Nat) (axes ps sh p idx : List Nat) (hps : ps.length = k) (hp : p.length = k) :
+    transposeShape (liftAxes k axes) (ps ++ sh) = ps ++ transposeShape axes sh ∧
+    transposeSrc (liftAxes k axes) (p ++ idx) = p ++ transposeSrc axes idx :=
+  ⟨lift_shape k axes ps sh hps, lift_src k axes p idx hp⟩
+
+/-- `_Concatenate.lower` (and every `Sum`/`Take`/`Inflate` behind `_Transpose.to_end`) addresses its axis from the END
+(`self.axis - self.ndim`): after `k` point axes have been prepended this is axis `k + axis` of the lowered array. -/
+theorem concatenate_lower_axis (k ndim axis : Nat) (h : axis < ndim) :
+    normdim (k + ndim) ((axis : Int) - (ndim : Int)) = some (k + axis) := by
+  unfold normdim
+  have h1 : (axis : Int) - (ndim : Int) < 0 := by omega
+  simp only [h1, if_true]
+  rw [if_neg (by push_cast; omega)]
+  congr 1; push_cast; omega
+
+-- the hypotheses of the theorems above are satisfiable / the statements are not vacuous
+example : broadcastShapes [[2, 1, 3], [4, 1], []] = some [2, 4, 3] := by decide
+example : broadcastShapes [[2, 3], [2]] = none := by decide
+example : (getitem [2, 3, 4] [.int (-1), .ellipsis, .slice ⟨some 1, none, some 2⟩]).map (·.shape) = some [3, 2] := by decide
+example : (npSliceRange ⟨none, none, some (-2)⟩ 5) = some [4, 2, 0] := by decide
+example : (match reshape [2, 3, 4] [some 4, none] with | .ok v => some v.shape | .error _ => none) = some [4, 6] := by decide
 
 end NutilsVerif.C07
